@@ -309,7 +309,10 @@ impl Monitor for C12 {
             _ => 4 * c.n + rng.usize(40, 300),
         };
         let mut xs = gen::gen(class, c.n, len, &mut rng);
-        if c.positive {
+        // (Drawdown: a quarter of the streams is left as generated, signs and zeros included - the
+        // statement quantifies over all finite sequences, and a series that has not been positive yet
+        // reports 0 in any unit)
+        if c.positive && !(c.name == "Drawdown" && rng.chance(1, 4)) {
             xs = gen::positive(&xs);
         }
         let (a, b) = match mode {
